@@ -101,14 +101,30 @@ void ABTI_ythread_callback_resume_yield_to(void *arg)
     ABTI_pool_dec_num_blocked(p_next->thread.p_pool);
 }
 
+/* Handle the requests of a ULT that is being suspended.  p_counted_pool is the
+ * pool whose number of blocked ULTs has been incremented for p_prev.  If a
+ * migration request moves p_prev to another pool, the count must move with it:
+ * ABTI_ythread_resume_and_push() decrements the counter of the pool p_prev is
+ * associated with when it gets resumed. */
+static inline void ythread_suspend_handle_request(ABTI_ythread *p_prev,
+                                                  ABTI_pool *p_counted_pool)
+{
+    /* Request handling.  p_prev->thread.p_pool might be changed. */
+    ABTI_thread_handle_request(&p_prev->thread, ABT_FALSE);
+    ABTI_pool *p_new_pool = p_prev->thread.p_pool;
+    if (ABTU_unlikely(p_new_pool != p_counted_pool)) {
+        ABTI_pool_inc_num_blocked(p_new_pool);
+        ABTI_pool_dec_num_blocked(p_counted_pool);
+    }
+}
+
 void ABTI_ythread_callback_suspend(void *arg)
 {
     ABTI_ythread *p_prev = (ABTI_ythread *)arg;
-    /* Increase the number of blocked threads of the original pool (i.e., before
-     * migration) */
-    ABTI_pool_inc_num_blocked(p_prev->thread.p_pool);
-    /* Request handling.  p_prev->thread.p_pool might be changed. */
-    ABTI_thread_handle_request(&p_prev->thread, ABT_FALSE);
+    /* Increase the number of blocked threads */
+    ABTI_pool *p_pool = p_prev->thread.p_pool;
+    ABTI_pool_inc_num_blocked(p_pool);
+    ythread_suspend_handle_request(p_prev, p_pool);
     ABTI_VERIF_POINT(ABTI_VERIF_P_SUSPEND_BEFORE_BLOCKED);
     /* Set this thread's state to BLOCKED. */
     ABTD_atomic_release_store_int(&p_prev->thread.state,
@@ -132,8 +148,7 @@ void ABTI_ythread_callback_resume_suspend_to(void *arg)
         /* Decrease the number of blocked threads of p_next's pool */
         ABTI_pool_dec_num_blocked(p_next_pool);
     }
-    /* Request handling.  p_prev->thread.p_pool might be changed. */
-    ABTI_thread_handle_request(&p_prev->thread, ABT_FALSE);
+    ythread_suspend_handle_request(p_prev, p_prev_pool);
     ABTI_VERIF_POINT(ABTI_VERIF_P_SUSPEND_BEFORE_BLOCKED);
     /* Set this thread's state to BLOCKED. */
     ABTD_atomic_release_store_int(&p_prev->thread.state,
@@ -173,9 +188,9 @@ void ABTI_ythread_callback_suspend_unlock(void *arg)
     ABTI_ythread *p_prev = p_arg->p_prev;
     ABTD_spinlock *p_lock = p_arg->p_lock;
     /* Increase the number of blocked threads */
-    ABTI_pool_inc_num_blocked(p_prev->thread.p_pool);
-    /* Request handling.  p_prev->thread.p_pool might be changed. */
-    ABTI_thread_handle_request(&p_prev->thread, ABT_FALSE);
+    ABTI_pool *p_pool = p_prev->thread.p_pool;
+    ABTI_pool_inc_num_blocked(p_pool);
+    ythread_suspend_handle_request(p_prev, p_pool);
     ABTI_VERIF_POINT(ABTI_VERIF_P_SUSPEND_BEFORE_BLOCKED);
     /* Set this thread's state to BLOCKED. */
     ABTD_atomic_release_store_int(&p_prev->thread.state,
@@ -194,9 +209,9 @@ void ABTI_ythread_callback_suspend_join(void *arg)
     ABTI_ythread *p_prev = p_arg->p_prev;
     ABTI_ythread *p_target = p_arg->p_target;
     /* Increase the number of blocked threads */
-    ABTI_pool_inc_num_blocked(p_prev->thread.p_pool);
-    /* Request handling.  p_prev->thread.p_pool might be changed. */
-    ABTI_thread_handle_request(&p_prev->thread, ABT_FALSE);
+    ABTI_pool *p_pool = p_prev->thread.p_pool;
+    ABTI_pool_inc_num_blocked(p_pool);
+    ythread_suspend_handle_request(p_prev, p_pool);
     ABTI_VERIF_POINT(ABTI_VERIF_P_SUSPEND_BEFORE_BLOCKED);
     /* Set this thread's state to BLOCKED. */
     ABTD_atomic_release_store_int(&p_prev->thread.state,
@@ -218,9 +233,9 @@ void ABTI_ythread_callback_suspend_replace_sched(void *arg)
     ABTI_ythread *p_prev = p_arg->p_prev;
     ABTI_sched *p_main_sched = p_arg->p_main_sched;
     /* Increase the number of blocked threads */
-    ABTI_pool_inc_num_blocked(p_prev->thread.p_pool);
-    /* Request handling.  p_prev->thread.p_pool might be changed. */
-    ABTI_thread_handle_request(&p_prev->thread, ABT_FALSE);
+    ABTI_pool *p_pool = p_prev->thread.p_pool;
+    ABTI_pool_inc_num_blocked(p_pool);
+    ythread_suspend_handle_request(p_prev, p_pool);
     ABTI_VERIF_POINT(ABTI_VERIF_P_SUSPEND_BEFORE_BLOCKED);
     /* Set this thread's state to BLOCKED. */
     ABTD_atomic_release_store_int(&p_prev->thread.state,
